@@ -60,16 +60,30 @@ package mod
 // inline data copied along with a rewritten descriptor never reaches a manifest.
 //@ ghost $readBack []byte
 //@ ghost $childBody []byte
+//@ ghost $lyRewritten bool
+//@ ghost $lyNewDig digest.Digest
+//@ ghost $lyNewSize int64
 //@ func dagPut(ctx, rc, mc, rSrc, rTgt, dm) (err)
 //@   prop C13
 //@   on-call ReadAll: $readBack = result0
 //@   on-call RawBody: $childBody = result0
+//   what the walk recorded for the layer of the coming iteration, taken where the iteration starts
+//   (the calls in between - BlobGet, ReadAll - do not change it, but the proof need not know that)
+//@   loop 2 (layer)
+//@     head-effect $lyRewritten = dm.layers[$idx__2 + 1].mod != unchanged && dm.layers[$idx__2 + 1].newDesc.Digest != ""
+//@     head-effect $lyNewDig = dm.layers[$idx__2 + 1].newDesc.Digest
+//@     head-effect $lyNewSize = dm.layers[$idx__2 + 1].newDesc.Size
 //@ elemwrite ~/types/descriptor.Descriptor
 //@   prop C13
 //@   name descriptor-into-manifest/dagPut
 //@   in ~/mod
 //@   infunc mod\.dagPut$
 //@   requires inline-data-obtained-now: len(v.Data) == 0 || (caller.layer != nil && v.Data == $readBack) || (caller.layer == nil && v.Data == $childBody)
+//   "every descriptor in every manifest written matches ... content that exists at the target" and
+//   "diff-ids are the digests of the corresponding uncompressed layers": a layer the walk rewrote
+//   (added or replaced, new descriptor recorded together with its uncompressed digest) is listed
+//   under the rewritten descriptor, the one its diff-id was computed for.
+//@   requires rewritten-layer-listed-under-its-new-descriptor: caller.layer != nil && $lyRewritten ==> v.Digest == $lyNewDig && v.Size == $lyNewSize
 //@ callsite builtin.append(list, add)
 //@   prop C13
 //@   name append-descriptor/dagPut
@@ -78,6 +92,7 @@ package mod
 //   (a shifting append `append(l[:i+1], l[i:]...)` moves existing entries: same backing array, excluded)
 //@   where appends-one-new-descriptor: len(add) == 1 && len(add[0].Data) >= 0 && add[0].MediaType == add[0].MediaType && $arr(add) != $arr(list)
 //@   requires inline-data-obtained-now: len(add[0].Data) == 0 || (caller.layer != nil && add[0].Data == $readBack) || (caller.layer == nil && add[0].Data == $childBody)
+//@   requires rewritten-layer-listed-under-its-new-descriptor: caller.layer != nil && $lyRewritten ==> add[0].Digest == $lyNewDig && add[0].Size == $lyNewSize
 
 // Diff-ids: while a layer is rewritten, the UNCOMPRESSED tar stream - whatever the compression of
 // the layer - is written through the digester digUC (the tar writer's sink is a MultiWriter ending
